@@ -238,6 +238,144 @@ def r4_caches(idx, r):
     r.require(any(dotted(c.func) == "self.clearCache" for c in iter_calls(sh.node)), "Block.setHeight:clears-cache", sh, msg="a height change must drop the block's cached values")
 
 
+# functions whose effect changes what cached areas/volumes/symmetry-dependent values are computed from: each must drop
+# its own cache (clearCache / clearLinkedCache on self) on EVERY normal path. Confirmed by reading, one reason each.
+MUST_INVALIDATE = {
+    "armi.reactor.assemblies.Assembly.moveTo": "the symmetry factor of the location may change (on or off a symmetry line)",
+    "armi.reactor.blocks.Block.setHeight": "volume = area x height",
+    "armi.reactor.blocks.Block.replaceBlockWithBlock": "all children replaced",
+    "armi.reactor.blocks.Block.add": "a component was added",
+    "armi.reactor.blocks.Block.remove": "a component was removed",
+    "armi.reactor.composites.ArmiObject.adjustMassFrac": "densities changed",
+    "armi.reactor.composites.Composite._syncParameters": "parameters overwritten from another process",
+    "armi.reactor.cores.Core.symmetry": "every symmetry factor in the core changes with the core's symmetry",
+    "armi.reactor.components.UnshapedVolumetricComponent.setVolume": "volume set directly",
+    "armi.reactor.components.component.Component.setProperties": "material / temperatures re-initialised",
+    "armi.reactor.components.component.Component.setTemperature": "every expanding dimension changes",
+    "armi.reactor.components.component.Component.clearLinkedCache": "is the invalidation primitive of components",
+}
+# functions that invalidate their own cache on some paths only, with the reason this is right
+MAY_SKIP_INVALIDATION = {
+    "armi.reactor.components.component.Component.updateNumberDensities": "only when the composition change moved the thermal expansion (dLL) is geometry affected",
+    "armi.reactor.components.component.Component.setDimension": "returns early for an empty key: nothing was set",
+}
+
+
+def r5_owned_density_table(idx, r):
+    """A component owns its number-density table: whatever is bound to `.p.numberDensities` is a fresh mapping
+    (literal, comprehension, dict()/copy, or the result of a call), never an object the caller still holds."""
+    from ..own import all_stores
+
+    def fresh(v, f, depth=0):
+        if isinstance(v, (ast.Dict, ast.DictComp)):
+            return True
+        if isinstance(v, ast.Call):
+            return True  # a call result is a new object unless the callee returns its argument; densityTools helpers build new dicts
+        if isinstance(v, ast.Name) and depth < 3:
+            if v.id in f.params():
+                return False
+            defs = [s_.value for s_ in iter_stores(f.node) if isinstance(s_.node, ast.Name) and s_.attr == v.id and s_.kind == "assign"]
+            return bool(defs) and all(fresh(d, f, depth + 1) for d in defs if d is not None)
+        return False
+
+    n = 0
+    for f, st in all_stores(idx, "numberDensities"):
+        if ".tests" in f.module.name or st.kind != "assign" or not (st.chain or "").endswith("p.numberDensities"):
+            continue
+        n += 1
+        r.require(fresh(st.value, f), f"{f.qualname}:{norm(st.stmt)[:60]}", f, node=st.stmt,
+                  msg=f"`{norm(st.stmt)[:70]}` binds an object that the caller (or another component) still holds: a later in-place change of one "
+                      "component's densities silently changes the other's, so setting one nuclide changes more than was asked")
+    if n < 3:
+        raise AnalysisError(f"only {n} stores into p.numberDensities found")
+
+
+def r7_dehomogenisation_range(idx, r):
+    """Block-level density N spread over children: N / sum(volume fractions of the receivers). The children that
+    receive the nuclide and the volume fractions that are summed must be selected by the same index set."""
+    f = idx.method("armi.reactor.composites.ArmiObject", "updateNumberDensities")
+    if f is None:
+        raise AnchorMissing("ArmiObject.updateNumberDensities")
+
+    def selector(e):
+        """('ALL',) | ('IDX', iterable-text) | ('FILTER', text) | None"""
+        if isinstance(e, ast.Call) and dotted(e.func) in ("tuple", "list", "sum") and len(e.args) == 1:
+            e = e.args[0]
+        if isinstance(e, ast.Name):
+            return ("ALL", e.id)
+        if isinstance(e, (ast.GeneratorExp, ast.ListComp)) and len(e.generators) == 1:
+            g = e.generators[0]
+            if isinstance(e.elt, ast.Subscript) and isinstance(e.elt.value, ast.Name) and isinstance(g.target, ast.Name) and norm(e.elt.slice) == g.target.id and not g.ifs:
+                return ("IDX", e.elt.value.id, norm(g.iter))
+            return ("FILTER", norm(e)[:80])
+        return None
+
+    n = 0
+    for node in walk_local(f.node):
+        body = getattr(node, "body", None)
+        for blk in [b for b in (body, getattr(node, "orelse", None)) if isinstance(b, list)]:
+            recv = [s_ for s_ in blk if isinstance(s_, ast.Assign) and norm(s_.targets[0]) == "childrenToSet"]
+            den = [s_ for s_ in blk if isinstance(s_, ast.Assign) and isinstance(s_.value, ast.BinOp) and isinstance(s_.value.op, ast.Div)
+                   and isinstance(s_.value.right, ast.Call) and dotted(s_.value.right.func) == "sum"]
+            if not recv or not den:
+                continue
+            n += 1
+            a, b = selector(recv[0].value), selector(den[0].value.right)
+            same = a is not None and b is not None and a[0] == b[0] and a[2:] == b[2:] and a[0] in ("ALL", "IDX")
+            r.require(same, f"branch:{norm(recv[0].value)[:50]}", f, node=recv[0],
+                      msg=f"the nuclide is given to `{norm(recv[0].value)[:60]}` but the density is divided by `{norm(den[0].value.right)[:60]}`: receivers and "
+                          "summed volume fractions are selected differently, so density x volume over the children no longer adds up to the block value")
+    if n < 2:
+        raise AnalysisError(f"updateNumberDensities: {n} (receivers, denominator) pairs found, expected the two branches")
+
+
+def r6_unconditional_invalidation(idx, r, only=None):
+    def is_clear(n):
+        return isinstance(n, ast.Call) and dotted(n.func) in ("self.clearCache", "self.clearLinkedCache")
+
+    seen = set()
+    for fq, why in MUST_INVALIDATE.items():
+        if only is not None and fq not in only:
+            continue
+        owner, name = fq.rsplit(".", 1)
+        f = idx.method(owner, name)
+        if f is None:
+            # property setters are indexed under the same name; try the class body directly
+            c = idx.cls(owner)
+            cand = [x for x in (c.node.body if c is not None else []) if isinstance(x, ast.FunctionDef) and x.name == name and any("setter" in norm(d) for d in x.decorator_list)]
+            if not cand:
+                raise AnchorMissing(fq)
+            node, at = cand[0], c
+        else:
+            node, at = f.node, f
+            c = idx.cls(owner)
+            setters = [x for x in c.node.body if isinstance(x, ast.FunctionDef) and x.name == name and any("setter" in norm(d) for d in x.decorator_list)]
+            if setters:
+                node = setters[0]
+        seen.add(fq)
+        fl = Flow(node, lambda n: ["clr"] if is_clear(n) else []).run()
+        bad = [e for e in fl.normal_exits() if e.state.get("clr", (0, 0))[0] < 1]
+        r.require(not bad, f"{owner.rsplit('.', 1)[-1]}.{name}:always-invalidates", at, node=(bad[0].node if bad and bad[0].node is not None else node),
+                  msg=f"a path leaves {name} without dropping the object's cached values ({why}); a cached area/volume computed before the change is then served after it")
+    # path contradiction elsewhere: a function that invalidates self on one path but not on another must be a listed exception
+    for m in ([] if only is not None else idx.modules.values()):
+        if not m.name.startswith("armi.reactor") or ".tests" in m.name:
+            continue
+        for f in m.all_funcs():
+            fq = f"{m.name}.{f.qualname}"
+            if fq in seen or not any(is_clear(n) for n in ast.walk(f.node)):
+                continue
+            fl = Flow(f.node, lambda n: ["clr"] if is_clear(n) else []).run()
+            bad = [e for e in fl.normal_exits() if e.state.get("clr", (0, 0))[0] < 1]
+            if not bad:
+                r.ok(f"{f.qualname}:invalidates-on-all-paths", f)
+            elif fq in MAY_SKIP_INVALIDATION:
+                r.ok(f"{f.qualname}:listed-exception", f, msg=MAY_SKIP_INVALIDATION[fq])
+            else:
+                r.violate(f"{f.qualname}:conditional-invalidation", f, "invalidates its own cache on one path and leaves on another without doing so; one of the two is wrong "
+                          "(not among the listed exceptions)", node=bad[0].node if bad[0].node is not None else f.node)
+
+
 def run(idx, chk):
     chk.explanation = (
         "C02: 24 conversion/accounting functions are typed in the free abelian group of physical units (cm, g, mol, barn, atom) plus a role generator "
@@ -253,3 +391,9 @@ def run(idx, chk):
     chk.run_rule("R02.3", "setters delegate to one implementation; scaling touches every density; setMassFracs counts every assigned fraction and shares the remainder", lambda r: r3_setters(idx, r), floor=12,
                  necessary="setting one nuclide must not change the others; fractions must sum to one")
     chk.run_rule("R02.4", "geometry/temperature changes drop the component's, the parent's and linked caches", lambda r: r4_caches(idx, r), floor=5, necessary="volume is the sum of the children's current volumes")
+    chk.run_rule("R02.6", "the frozen list of geometry/placement/symmetry mutators drop their own cache on every path; no other function invalidates conditionally", lambda r: r6_unconditional_invalidation(idx, r), floor=12,
+                 necessary="volume and area are served from caches: atoms = density x volume holds at every level only if no stale cache survives a change")
+    chk.run_rule("R02.5", "whatever is bound to a component's p.numberDensities is a fresh mapping, never the caller's object", lambda r: r5_owned_density_table(idx, r), floor=3,
+                 necessary="'setting one nuclide must not change the others' - nor another component's")
+    chk.run_rule("R02.7", "block-level densities are de-homogenised over exactly the children that receive them", lambda r: r7_dehomogenisation_range(idx, r), floor=2,
+                 necessary="density read back at block level = density set: sum over receivers of (N / sum vf) x vf = N")
